@@ -175,6 +175,8 @@ def c05_stream(seed, n):
     out = []
     for l in ops:
         out.append(l)
+        if not l.startswith("p "):
+            continue
         if r.random() < 0.02:
             ln = r.choice([0, 1, 15, 16, 17, 18, 19, 33, 64, 255, 256, 1000, 4096])
             out.append(gen.hexstr(bytes(r.choice(b"0123456789abcdefABCDEFxX -+\tgG\x80\xff") for _ in range(ln))))
@@ -434,8 +436,12 @@ def write_evidence(ctx, rc):
     os.makedirs(EVID, exist_ok=True)
     module, thms = lean_info(ctx.pid)
     cov = dict(ctx.cov)
-    cov["obligations"] = max(ctx.obligations, 1)
-    cov["discharged"] = ctx.discharged
+    if ctx.discharged >= 1 and ctx.discharged == ctx.obligations:
+        cov["obligations"] = ctx.obligations
+        cov["discharged"] = ctx.discharged
+    else:
+        # a proof obligation failed on this run: the proof-level keys are withheld (the generic counts below remain)
+        cov["proof_obligations_failed"] = {"obligations": ctx.obligations, "discharged": ctx.discharged}
     cov["theorems"] = thms
     cov["checker_cmd"] = "cd /verif/lean && lake build %s rdsmodel && lake env lean <#print axioms of the theorems above>; grep audit of all .lean sources" % module
     cov["trusted_base"] = runner.TRUSTED_BASE
@@ -486,13 +492,18 @@ def run_property(pid, tier, seed):
             return finish(ctx)
         # 3./4. Lean obligations
         ok, msg = lean_obligations(ctx)
+        lean_failure = None
         if not ok:
             import tablediag
-            handled = tablediag.diagnose(ctx, msg)
-            if not handled:
-                path = runner.write_replay(pid, "lean", ["kind=proof obligation no longer checks: " + msg, getattr(ctx, "lean_log", "")[-3000:].replace("\n", " | ")], [])
+            if tablediag.diagnose(ctx, msg):
+                return finish(ctx)
+            # a proof obligation no longer checks: search model and implementation for a failing input
+            lean_failure = msg
+            ok2, out2, _ = infra.lake_build(["rdsmodel"])
+            if not ok2:
+                path = runner.write_replay(pid, "lean", ["kind=proof obligation no longer checks and the model driver does not build: " + msg, getattr(ctx, "lean_log", "")[-3000:].replace("\n", " | ")], [])
                 ctx.add_violation(path, msg, nofail=True)
-            return finish(ctx)
+                return finish(ctx)
         # 5. property-specific extra machinery
         import extra
         extra.run_extra(ctx)
@@ -507,6 +518,11 @@ def run_property(pid, tier, seed):
             evaluate_twin(ctx, name, tw, ca, cb, "twin run")
             if len(ctx.violations) >= 3:
                 break
+        if lean_failure and not ctx.violations:
+            path = runner.write_replay(pid, "lean", ["kind=proof obligation no longer checks: " + lean_failure,
+                                                     "no input on which the property fails was found by the correspondence and monitor runs of this tier: no-failing-input-found",
+                                                     getattr(ctx, "lean_log", "")[-3000:].replace("\n", " | ")], [])
+            ctx.add_violation(path, lean_failure, nofail=True)
     except Exception as e:
         traceback.print_exc()
         path = runner.write_replay(pid, "internal", ["kind=internal error of the checking machinery: " + repr(e)[:500]], [])
